@@ -370,7 +370,7 @@ func generate(r *hx.Rng) []cs {
 			cases = append(cases, cs{id: next(), kind: "CR", f: []string{e, pt, "64", sd()}})
 		}
 		// a transfer whose copy command fails midway while the process lives on
-		cases = append(cases, cs{id: next(), kind: "FF", f: []string{e, fmt.Sprint(600 + r.Pick(1500)), sd()}})
+		cases = append(cases, cs{id: next(), kind: "FF", f: []string{e, fmt.Sprint(600 + r.Pick(1500)), sd(), []string{"efbig", "cutwal"}[r.Pick(2)]}})
 		// kills at arbitrary moments of the copy / the file replacement / the transfer
 		for k := 0; k < *nCrash; k++ {
 			cases = append(cases, cs{id: next(), kind: "CB", f: []string{e, fmt.Sprintf("t%d", r.Pick(30000)), "16000", sd()}})
@@ -566,8 +566,12 @@ func main() {
 		case "FF":
 			kb, _ := strconv.Atoi(c.f[1])
 			sd, _ := strconv.ParseInt(c.f[2], 10, 64)
-			co.Printf("%s\tFF\t%s\t%s\t%s\n", c.id, c.f[0], c.f[1], c.f[2])
-			io.Printf("%s\t%s\n", c.id, failedFetch(c.f[0], kb, sd))
+			co.Printf("%s\tFF\t%s\n", c.id, strings.Join(c.f, "\t"))
+			mode := "efbig"
+			if len(c.f) > 3 {
+				mode = c.f[3]
+			}
+			io.Printf("%s\t%s\n", c.id, failedFetch(c.f[0], kb, sd, mode))
 		case "CB", "CR", "CF":
 			// crash cases: <eng> <point | t<micros>> <fillKB> <seed>
 			kb, _ := strconv.Atoi(c.f[2])
